@@ -53,8 +53,12 @@ pub fn expand_self<T: VisitableMut + Clone>(input: &T, to: &Type) -> T {
 
 /// Returns `ty` in a form that can follow `&`: `A + B` (with or without `dyn` / `impl`) must be parenthesized.
 pub fn ref_target(ty: &Type) -> Type {
-    match ty {
-        Type::TraitObject(_) | Type::ImplTrait(_) => parse_quote!((#ty)),
+    let mut inner = ty;
+    while let Type::Group(g) = inner {
+        inner = &g.elem;
+    }
+    match inner {
+        Type::TraitObject(_) | Type::ImplTrait(_) => parse_quote!((#inner)),
         _ => ty.clone(),
     }
 }
@@ -164,4 +168,59 @@ impl GenericParamSet {
         visitor.visit_type(ty);
         visitor.result
     }
+}
+
+/// Makes the invisible groups of `macro_rules!` fragments (`$e:expr`, `$t:ty`) visible where they matter: rustc does
+/// not honour them when it parses the output of a procedural macro, so `2 * $e` with `$e = 1 + 2` would otherwise mean
+/// `(2 * 1) + 2` and `&$t` with `$t = dyn A + B` would not parse.
+/// Only expressions with an operator and types with `+` are wrapped; every other fragment stays as it is.
+pub fn parenthesize_invisible_groups(input: proc_macro2::TokenStream) -> proc_macro2::TokenStream {
+    use proc_macro2::{Delimiter, Group, TokenStream, TokenTree};
+    fn is_expr_with_operator(ts: TokenStream) -> bool {
+        matches!(
+            syn::parse2::<syn::Expr>(ts),
+            Ok(syn::Expr::Binary(_)
+                | syn::Expr::Unary(_)
+                | syn::Expr::Cast(_)
+                | syn::Expr::Range(_)
+                | syn::Expr::Assign(_)
+                | syn::Expr::Closure(_)
+                | syn::Expr::Reference(_))
+        )
+    }
+    fn is_type_with_plus(ts: TokenStream) -> bool {
+        match syn::parse2::<Type>(ts) {
+            Ok(Type::TraitObject(t)) => t.bounds.len() > 1,
+            Ok(Type::ImplTrait(t)) => t.bounds.len() > 1,
+            _ => false,
+        }
+    }
+    // `&`, `&'a`, `&mut`, `*const`, `*mut` in front of a type: the only places where `A + B` needs parentheses.
+    fn is_pointer_prefix(prev: &[TokenTree]) -> bool {
+        match prev {
+            [.., TokenTree::Punct(p)] if p.as_char() == '&' => true,
+            [.., TokenTree::Punct(p), TokenTree::Ident(_)] if p.as_char() == '\'' => true,
+            [.., TokenTree::Ident(i)] => i == "mut" || i == "const",
+            _ => false,
+        }
+    }
+    let mut ts = Vec::<TokenTree>::new();
+    for i in input {
+        if let TokenTree::Group(g) = &i {
+            let needs_parens = g.delimiter() == Delimiter::None
+                && (is_expr_with_operator(g.stream())
+                    || (is_pointer_prefix(&ts) && is_type_with_plus(g.stream())));
+            let delimiter = if needs_parens {
+                Delimiter::Parenthesis
+            } else {
+                g.delimiter()
+            };
+            let mut g2 = Group::new(delimiter, parenthesize_invisible_groups(g.stream()));
+            g2.set_span(g.span());
+            ts.push(TokenTree::Group(g2));
+        } else {
+            ts.push(i);
+        }
+    }
+    ts.into_iter().collect()
 }
